@@ -1,6 +1,6 @@
 #!/bin/bash
 # usage (from a `vp run --with-repo` snapshot or from /verif): tools/seed_sweep.sh <tier> <seed>...
-# Runs every claimed check at each seed and prints one line per check; VIOLATION lines are kept in full.
+# Runs every claimed check (or those named in $ONLY) at each seed and prints one line per check; VIOLATION lines are kept in full.
 cd "$(dirname "$0")/.." || exit 1
 V=$(pwd)
 if [ -n "$VP_RUN_REPO" ]; then
@@ -11,7 +11,7 @@ fi
 TIER="$1"; shift
 ./setup.sh > setup.log 2>&1 || { echo "setup failed"; tail -20 setup.log; exit 1; }
 for s in "$@"; do
-  for p in $(python3 -c "import json; print(' '.join(c['property_id'] for c in json.load(open('MANIFEST.json'))['checks']))"); do
+  for p in ${ONLY:-$(python3 -c "import json; print(' '.join(c['property_id'] for c in json.load(open('MANIFEST.json'))['checks']))")}; do
     VERIF_SEED=$s ./check $p --tier $TIER 2>&1 | grep -E "^(VIOLATION|C[0-9]+ (quick|thorough)|proof problem)" | sed "s/^/seed=$s /" | cut -c1-260
   done
 done
